@@ -9,7 +9,7 @@
 use mc_core::model::dewey::{Op, OPS};
 use mc_core::par::par_items;
 use mc_core::seqs;
-use mc_core::{guard, Run, Tally, Violation};
+use mc_core::{guard, Run, Violation};
 use pkgsrc::Pattern;
 use serde_json::{json, Value};
 use std::collections::BTreeSet;
@@ -446,5 +446,49 @@ fn main() {
             }
         }
     });
+    // ... and of three-component versions: the same values in six spellings as lower bound, upper
+    // bound and package version (a range is about values, not about the text its bounds share)
+    {
+        let triples: [(u32, u32, u32); 7] = [(1, 2, 3), (1, 2, 5), (1, 2, 9), (1, 0, 0), (1, 0, 5), (1, 3, 0), (2, 0, 0)];
+        let mut rel3: Vec<String> = vec![];
+        for (a, b, c) in triples {
+            rel3.push(format!("{}.{}.{}", a, b, c));
+            rel3.push(format!("{}.0{}.{}", a, b, c));
+            rel3.push(format!("0{}.{}.00{}", a, b, c));
+            rel3.push(format!("{}_{}_{}", a, b, c));
+            rel3.push(format!("{}pl{}.{}.", a, b, c));
+            rel3.push(format!("{}.{}.{}.0", a, b, c));
+        }
+        rel3.extend(["1...", "1..", "1.2.", "1.2..5"].iter().map(|x| x.to_string()));
+        run.bound(format!("two-bound, spellings of three-component versions: {0} x {0} (L, U) x {0} package versions x 4 operator combinations (quick: every second L), halves by direct calls", rel3.len()));
+        let idx: Vec<usize> = (0..rel3.len()).collect();
+        par_items(&run, "C03 spelled bounds", &idx, |_, ai, t| {
+            for (li, lo) in rel3.iter().enumerate() {
+                if !run.thorough() && (li + *ai) % 2 == 1 {
+                    continue;
+                }
+                for hi in rel3.iter() {
+                    for lop in [Op::Gt, Op::Ge] {
+                        for hop in [Op::Lt, Op::Le] {
+                            t.evals += 1;
+                            t.validated += 3;
+                            t.transitions += 3;
+                            t.nontrivial += 1;
+                            match two_bound(&rel3[*ai], lo, lop, hi, hop) {
+                                None => t.outcome("two-bound/related-consistent"),
+                                Some(obs) => t.violation(Violation::new(
+                                    "two-bound",
+                                    json!({"a": rel3[*ai], "lo": lo, "lop": lop.text(), "hi": hi, "hop": hop.text()}),
+                                    json!("matches iff both halves match"),
+                                    obs,
+                                    "conjunction of bounds",
+                                )),
+                            }
+                        }
+                    }
+                }
+            }
+        });
+    }
     run.finish();
 }
